@@ -438,7 +438,7 @@ fn loader_sched(a: &Args) {
     let cfg = loader::Cfg {
       threads: if ru % 5 == 4 { 1 } else { 2 + (ru / 2) % 2 },
       keys: 1 + (ru as u32 / 3) % 2,
-      fetches: if ru % 5 == 4 { 6 } else { 1 + (ru / 4) % 2 },
+      fetches: if ru % 5 == 4 { 6 + 3 * ((ru / 3) % 2 == 0) as usize } else { 1 + (ru / 4) % 2 + 2 * ((ru / 3) % 2 == 0 && ru % 3 != 1) as usize },
       shards: 1 + (ru / 7) % 2,
       seed: seed.wrapping_mul(1_000_003).wrapping_add(r),
       strategy: strategies[ru % strategies.len()].clone(),
@@ -446,6 +446,8 @@ fn loader_sched(a: &Args) {
       kf: kf.clone(),
       // every third scenario runs on the AsyncCache with the async loader
       is_async: ru % 3 == 1,
+      // half of the thread-based scenarios: TTL + stale-while-revalidate with clock advances
+      swr: ru % 3 != 1 && (ru / 3) % 2 == 0,
     };
     let st = loader::run(&cfg);
     n += 1;
